@@ -191,13 +191,14 @@ impl World for SemWorld {
     }
 
     fn after_op(r: &mut Runner<Self>, op: &str, res: &str) {
-        // C03: conservation
-        let out = r.w.guards.len() + r.w.forgotten;
-        if out > r.w.init + r.w.added {
+        // C03: conservation (u128 arithmetic: a broken implementation may wrap the counter)
+        let out = (r.w.guards.len() + r.w.forgotten) as u128;
+        let total = (r.w.init + r.w.added) as u128;
+        if out > total {
             r.violation("C03", format!("{} permits outstanding (alive {} + forgotten {}) > initial {} + added {}", out, r.w.guards.len(), r.w.forgotten, r.w.init, r.w.added));
         }
         if let Some((c, _)) = r.w.state() {
-            if c + out != r.w.init + r.w.added {
+            if c as u128 + out != total {
                 r.violation("C03", format!("count {} + outstanding {} != initial {} + added {} after `{}`", c, out, r.w.init, r.w.added, op));
             }
         }
@@ -205,7 +206,7 @@ impl World for SemWorld {
         if op.starts_with("try") {
             // count before the op = count after + (1 if it succeeded)
             if let Some((c, _)) = r.w.state() {
-                let before = c + if res.starts_with('S') { 1 } else { 0 };
+                let before = c as u128 + if res.starts_with('S') { 1 } else { 0 };
                 if (before > 0) != res.starts_with('S') {
                     r.violation("C03", format!("try_acquire returned {} with {} permits available", res, before));
                 }
@@ -245,8 +246,8 @@ impl World for SemWorld {
         // C10: nothing alive => every permit can be taken, no listener left
         if r.w.futs.is_empty() && r.w.guards.is_empty() {
             let (c, l) = r.w.state().unwrap();
-            if l != 0 || c + r.w.forgotten != r.w.init + r.w.added {
-                r.violation("C10", format!("no future and no guard alive but count = {} (expected {}), listeners = {}", c, r.w.init + r.w.added - r.w.forgotten, l));
+            if l != 0 || c as u128 + r.w.forgotten as u128 != (r.w.init + r.w.added) as u128 {
+                r.violation("C10", format!("no future and no guard alive but count = {} (expected {}), listeners = {}", c, (r.w.init + r.w.added) as i128 - r.w.forgotten as i128, l));
             }
         }
     }
